@@ -169,6 +169,12 @@ def narrowing_cast(v, rp):
     return None
 
 
+# writer forms that a reader refuses by design with a panic (one named type each, with the reason)
+DECLARED_REFUSALS = {
+    "RangeInclusive<Idx>": "an exhausted inclusive range cannot be rebuilt through the public API of RangeInclusive: both readers assert that the flag is false",
+}
+
+
 def selectors_compatible(wp, rp):
     # reader tag selectors against writer constants at the same position
     for s in rp.selectors:
@@ -428,6 +434,9 @@ def check_triple(t, exp, rep, modes=("full", "eps"), want=("W1", "W2", "W3", "W4
                                 t.loc, {"writer": w.show(), "reader": r.show(), "writer_cond": w.cond_show(), "reader_cond": r.cond_show()})
             for w in ser_ok:
                 cands = [r for r in rd_ok if wire.statics_compatible(w.statics, r.statics) and selectors_compatible(w, r)]
+                if not cands and key in DECLARED_REFUSALS and any(r.outcome == "panic" and wire.statics_compatible(w.statics, r.statics) and selectors_compatible(w, r) for r in rd):
+                    rep.count("declared_refusals_matched")
+                    continue                          # refused by a panicking reader path, by design (table above); W-REFUSE looks at it
                 rep.oblige(bool(cands))
                 if not cands:
                     rep.add("W1-unread", "%s:%s:%s" % (key, mode, w.cond_show()),
